@@ -595,7 +595,10 @@ OP("cbor_build_tag", ["H_BUILD_TAG"], replace=["cbor_new_tag", "cbor_tag_set_ite
 # L2 containers (C12 list view, C04 deltas, C06 atomicity, C20 growth arithmetic, C13 traffic)
 CONT_CONTRACTS = ["contracts/items_ro.h", "contracts/items_ops.h", "contracts/memory_utils.h", "contracts/items_cont.h",
                   "contracts/refcount.h", "contracts/arrays2.h"]
-CONT_PROPS = {"C12": FUNC + FRAME + SAFETY, "C04": FUNC + FRAME, "C06": FUNC + FRAME + SAFETY, "C13": FUNC, "C20": FUNC, "C01": SAFETY, "C17": FRAME}
+# C01: the memory-safety argument for the decode path USES these contracts (capacity == what was allocated, slots inside the
+# storage ...) at every call site, so a failed postcondition of a container operation / constructor breaks C01's argument too
+CONT_PROPS = {"C12": FUNC + FRAME + SAFETY, "C04": FUNC + FRAME, "C06": FUNC + FRAME + SAFETY, "C13": FUNC, "C20": FUNC,
+              "C01": SAFETY + ["postcondition"], "C17": FRAME}
 
 
 def CONT(fn, defines, replace=(), must=1, covers=1, **kw):
